@@ -67,7 +67,7 @@ def make_default(name, t, rot):
         return None
     if r is None:
         if t in W.REAL:
-            return ("abs", {"zero": 0.0, "max": 1.5, "min": -2.25e10}.get(name, 3.0))
+            return ("abs", {"zero": 0.0, "max": 1.5, "min": -2.25e10, "min-hex": 50.0, "minus2-hex": 0.0}.get(name, 3.0))
         if t in W.TEXT:
             return ("abs", {"zero": "x", "max": "hello world", "min": "a=b%c"}.get(name, "q r s"))
         if t in W.BYTES:
